@@ -160,21 +160,21 @@ func readFindings(path string) []finding {
 // ---- the check command ---------------------------------------------------------------
 
 type oblReport struct {
-	Name    string  `json:"name"`
-	Status  string  `json:"status"`
-	Backend string  `json:"backend,omitempty"`
-	TimeS   float64 `json:"solver_s,omitempty"`
+	Name    string   `json:"name"`
+	Status  string   `json:"status"`
+	Backend string   `json:"backend,omitempty"`
+	TimeS   float64  `json:"solver_s,omitempty"`
 	Tags    []string `json:"tags,omitempty"`
 }
 
 type funcReport struct {
-	Contract string `json:"contract"`
-	Function string `json:"function"`
-	SSAHash  string `json:"ssa_sha256,omitempty"`
-	Obligations int `json:"obligations"`
-	Discharged  int `json:"discharged"`
-	Trusted  string `json:"trusted,omitempty"`
-	Error    string `json:"engine_error,omitempty"`
+	Contract    string `json:"contract"`
+	Function    string `json:"function"`
+	SSAHash     string `json:"ssa_sha256,omitempty"`
+	Obligations int    `json:"obligations"`
+	Discharged  int    `json:"discharged"`
+	Trusted     string `json:"trusted,omitempty"`
+	Error       string `json:"engine_error,omitempty"`
 }
 
 func ssaHash(fn *ssaFn) string {
@@ -188,13 +188,13 @@ func ssaHash(fn *ssaFn) string {
 }
 
 type checkResult struct {
-	violations []string
-	known      []string
-	hardErrors []string
-	results    []*FuncResult
+	violations              []string
+	known                   []string
+	hardErrors              []string
+	results                 []*FuncResult
 	obligations, discharged int
-	undecided  []string
-	wall       float64
+	undecided               []string
+	wall                    float64
 }
 
 func runCommand(cmd, repo, verif, prop, tier string, seed int, args []string, timeout int) error {
@@ -324,6 +324,22 @@ func checkProperty(repo, verif, prop, tier string, seed, timeout int, writeEvide
 	os.RemoveAll(outDir)
 	dischargeAll(results, solveOpts{OutDir: outDir, Timeout: to, Seed: seed, All: all, Jobs: 8})
 	lock := readLock(filepath.Join(verif, "obligations.lock"))[prop]
+	// A locked obligation that ran out of time is retried with a long timeout and a
+	// different seed before it may be reported: solver time varies with machine load,
+	// and a timeout is not evidence of a violation.
+	retried := 0
+	for _, r := range results {
+		for _, o := range r.Obls {
+			if o.Kind == "assert" && o.Status == "undecided" && lock[shortObl(baseName(o.Name))] {
+				o.Status = ""
+				retried++
+			}
+		}
+	}
+	if retried > 0 {
+		fmt.Fprintf(os.Stderr, "govc: retrying %d locked obligation(s) that timed out, with a %ds limit\n", retried, 180)
+		dischargeAll(results, solveOpts{OutDir: outDir + "-retry", Timeout: 180 * time.Second, Seed: seed + 7, All: false, Jobs: 4})
+	}
 	findings := readFindings(filepath.Join(verif, "KNOWN_FINDINGS.txt"))
 	isKnown := func(name string) *finding {
 		b := shortObl(baseName(name))
@@ -443,14 +459,14 @@ func checkProperty(repo, verif, prop, tier string, seed, timeout int, writeEvide
 		}
 		cov := map[string]interface{}{
 			"obligations": cr.obligations, "discharged": cr.discharged,
-			"checker_cmd": fmt.Sprintf("/verif/bin/govc check --property %s --tier %s", prop, tier),
+			"checker_cmd":  fmt.Sprintf("/verif/bin/govc check --property %s --tier %s", prop, tier),
 			"trusted_base": trustedBase, "samples": samples,
 			"functions_under_contract": freps, "obligation_results": oreps,
 			"undecided_not_locked": cr.undecided, "vacuity_checks": map[string]int{"run": smokeTotal, "ok": smokeOK},
 			"locked_classes": len(lock), "known_findings_reported": cr.known,
 			"engine_errors": cr.hardErrors,
-			"explanation": explanationFor(prop, cr),
-			"arithmetic": "machine integers are exact bit-vectors (no mathematical-integer abstraction); references are unbounded integers; time.Time is a real number of seconds",
+			"explanation":   explanationFor(prop, cr),
+			"arithmetic":    "machine integers are exact bit-vectors (no mathematical-integer abstraction); references are unbounded integers; time.Time is a real number of seconds",
 		}
 		ev["coverage"] = cov
 		os.MkdirAll(filepath.Join(verif, "evidence"), 0o755)
@@ -551,7 +567,7 @@ func writeLock(repo, verif string, props []string, timeout int) error {
 	if err != nil {
 		return err
 	}
-	to := 20 * time.Second
+	to := 60 * time.Second
 	if timeout > 0 {
 		to = time.Duration(timeout) * time.Second
 	}
@@ -590,8 +606,8 @@ func writeLock(repo, verif string, props []string, timeout int) error {
 					continue
 				}
 				cls := shortObl(baseName(o.Name))
-				// only lock what discharges comfortably (well under the quick timeout)
-				if o.Status == "discharged" && o.Time < 8 {
+				// only lock what discharges well under the retry limit of `check` (180 s)
+				if o.Status == "discharged" && o.Time < 45 {
 					classes[cls] = true
 				} else {
 					bad[cls] = true
